@@ -11,7 +11,7 @@ use monero::cryptonote::onetime_key::{KeyRecoverer, SubKeyChecker};
 use monero::cryptonote::subaddress::Index;
 use monero::util::key::{KeyPair, PrivateKey, PublicKey, ViewPair};
 use monero::util::ringct::{EcdhInfo, Key};
-use monero::Transaction;
+use monero::{Transaction, TxOut};
 use std::convert::TryInto;
 
 fn err_key() -> Option<String> {
@@ -237,6 +237,16 @@ pub fn run(op: &str, args: &[&str]) -> Option<String> {
             Some(match checker.check(pos as usize, &key, &txk) {
                 Some(i) => format!("OK {} {}", i.major, i.minor),
                 None => "NONE".to_string(),
+            })
+        }
+        ("txout_key", [h]) => {
+            let b = unhex(h)?;
+            Some(match deserialize::<TxOut>(&b) {
+                Ok(o) => match o.get_one_time_key() {
+                    Some(k) => format!("OK {}", show_hex(k.as_bytes())),
+                    None => "OK -".to_string(),
+                },
+                Err(_) => "ERR".to_string(),
             })
         }
         _ => None,
